@@ -186,12 +186,21 @@ func init() {
 				if tier != "thorough" && n == 3 && layout != 0 {
 					continue // the layout only matters for who acts first (Harness_Ready) and for forced bets (Harness_C13)
 				}
+				if n == 4 && layout != 0 {
+					continue
+				}
 				for street := 0; street < 4; street++ {
 					if tier != "thorough" && n == 3 && (street == 1 || street == 2) {
 						continue // quick: preflop and river for n=3
 					}
+					if n == 4 && (street == 1 || street == 2) {
+						continue
+					}
 					for limit := 0; limit <= 1; limit++ {
 						if tier != "thorough" && limit == 1 && n == 3 {
+							continue
+						}
+						if n == 4 && limit == 1 {
 							continue
 						}
 						for cur := 0; cur < n; cur++ {
@@ -260,7 +269,7 @@ func init() {
 	actBounds := func(tier string) []string {
 		b := []string{"unrolling Start / ReadyForAll / PayAnte / PayBlinds from the real initial state with symbolic stakes and bankrolls (n=2,3, dealer at seat 0; all dealers in C13)", "wait points ReadyRequested (every street) + ReadyForAll, RoundClosed (every street) + Next incl. settlement and the closed hand, Start() on symbolic options; every dealer seat (quick: n=3 dealer 0,1)", "wait point: RoundStarted with seat cur to act, every street, every seat to act, every operation of {fold, check, call, allin, bet(x), raise(x), pass, pay(x)} by every seat", "state: every chip account, fold/acted flag, stake and raise size symbolic under Inv_act (I1, I2, turn-structure A/J, >=2 seats alive, >=1 with chips), amounts < 2^40; bet/raise/pay amount: every int64", "layouts: dealer/sb/bb, dead small blind, dealer-blind; limit no / pot"}
 		if tier == "thorough" {
-			return append(b, "n in 2..4 seats")
+			return append(b, "n=2,3: every street, layout, limit, seat to act and operation; n=4: preflop and river, standard layout, no-limit, every seat to act and operation")
 		}
 		return append(b, "n=2: every street, both limits, layouts standard and dealer-blind; n=3: preflop and river, no-limit, standard layout; n=4: flop, standard layout, allin/bet/raise by seat 0 and raise by the last seat")
 	}
@@ -282,7 +291,7 @@ func init() {
 		needs := map[string][]string{
 			"C01": {"Harness_Act", "Harness_Ready", "Harness_Next", "Harness_C13"},
 			"C04": {"Harness_Act", "Harness_Ready", "Harness_Next", "Harness_C13"},
-			"C05": {"Harness_Act", "Harness_Ready", "Harness_Next"},
+			"C05": {"Harness_Act", "Harness_Ready", "Harness_Next", "Harness_C13"},
 			"C06": {"Harness_Act", "Harness_Ready", "Harness_Next", "Harness_Start", "Harness_C13"},
 			"C11": {"Harness_Act"},
 			"C12": {"Harness_Act"},
